@@ -110,6 +110,7 @@ inductive Outc where
   | noWorker      -- `run`: `ValueError('No worker is available.')` after 180 s
   | notStarted    -- `run`: `wait_until_alive()` failed before the `try:` (no live worker for 180 s)
   | disconnected  -- `run`: `worker.submit` → `wait_until_alive` of the chosen worker failed (`RuntimeError`)
+  | closed        -- `as_completed`: the consumer closed the generator at a `yield` (`GeneratorExit`)
   deriving DecidableEq, Repr
 
 /-- The program of a pool thread: primitive operations of the ownership LTS and composite operations. -/
@@ -118,6 +119,50 @@ inductive TOp where
   | run (p : Pid) (raises : Bool)           -- `pool.run(task)`; `raises`: the task raises at the worker
   | callAndWait (p : Pid) (raises : Bool)   -- `pool.call_and_wait(task)`
   | submitNB (p : Pid) (w : Wid) (raises : Bool)   -- `w.submit(task)` with a non-blocking task (what `as_completed` does, orchestrate.py:497)
+  | asCompleted (p : Pid) (tasks : List Bool) (ignore : Bool) (take : Option Nat) (fixed : Bool)
+      -- round 11: `for r in orchestrate.as_completed(pool, tasks, ignore_failures=ignore)`: `tasks` = which tasks raise at the worker;
+      -- the consumer closes the generator after `take` results; `fixed` = the repaired code (`release_all(unused)` only for a non-empty set)
+  deriving DecidableEq, Repr
+
+/-! ### `orchestrate.as_completed` as a program (round 11) — orchestrate.py:474–557
+
+Local state of the generator frame.  Sets (`preferred`, `running`, `acquired`, `reserved`, `unused_workers`) are duplicate-free
+lists; the order in which the code iterates a set, `random.shuffle` and `random.sample` are ENVIRONMENT choices: the controller
+accepts every order / sample the Python semantics allows (`legalOrder`, `legalUnused`) and reads the chosen one off the prophecy
+(the next operation of the thread's script), exactly as the pieces of `run` / `call_and_wait` are. -/
+
+/-- a submitted task: does it raise at the worker, on which worker, which call is its future -/
+structure ARun where
+  raises : Bool
+  w : Wid
+  call : Nat
+  deriving DecidableEq, Repr
+
+/-- Program points of `as_completed`: *inside (or just after)* a piece, or just after a `task.done()` poll. -/
+inductive APc where
+  | alive1                                              -- in `worker_pool.workers` of `if not worker_pool.workers:` (488)
+  | alive2                                              -- in `worker_pool.workers` of `set(worker_pool.workers) - preferred` (490)
+  | next                                                -- in `worker_pool.next_idle_worker(workers, maybe_acquire=True)` (494)
+  | sub (w : Wid) (raises : Bool)                       -- in `worker.submit(tasks.pop())` (504): pieces `submitW`
+  | polled (r : ARun) (st : CSt) (todo still : List ARun)   -- `task.done()` of `r` was just read (509): `st` = its future then
+  | isAl (r : ARun) (todo still : List ARun)            -- in `task.is_alive` (528)
+  | acq                                                 -- in `worker_pool.acquired_workers` (545)
+  | rel                                                 -- in `worker_pool.release_all(unused_workers)` (553)
+  deriving DecidableEq, Repr
+
+structure AC where
+  p : Pid
+  ignore : Bool := false             -- `ignore_failures`
+  fixed : Bool := true               -- repaired code: `release_all(unused_workers)` only when the set is non-empty
+  take : Option Nat := none          -- the consumer closes the generator after this many results
+  todo : List Bool := []             -- `task_iterator`: the tasks not drawn yet
+  exhausted : Bool := false
+  tasks : List Bool := []            -- retry stack `tasks` (head = Python's last element)
+  running : List ARun := []          -- `running_tasks`
+  preferred : List Wid := []         -- `preferred` (a set)
+  yielded : Nat := 0
+  ws : List Wid := []                -- `workers` of the current round of the outer loop
+  pc : APc
   deriving DecidableEq, Repr
 
 /-- Program points of the composite operations *between* two pieces (courier_worker.py:287–321, 323–337, 410–430;
@@ -135,6 +180,7 @@ inductive Ctl where
   | cAcq (p : Pid) (r : Bool)                        -- `call_and_wait`: in `_acquire_all()` + the calls; then `start_time = time.time()`
   | cWait (p : Pid) (r : Bool) (todo : List Nat)     -- `courier_worker.wait`: polling `done()` of the remaining calls
   | sSub (p : Pid) (r : Bool) (w : Wid)              -- in `w.submit(task)` called on its own (a piece `submitW`); then sleep / return
+  | ac (a : AC)                                      -- in the body of `orchestrate.as_completed` (round 11)
   deriving DecidableEq, Repr
 
 structure Env where
@@ -153,6 +199,8 @@ structure Env where
   outs : Tid → List Outc := fun _ => []    -- outcomes of the finished composite operations
   sticker : Tid → Time := fun _ => 0       -- `ticker` of `CourierClient.wait_until_alive` (read when its first `is_alive` returned False)
   tcalls : Tid → List Nat := fun _ => []   -- calls submitted by the thread's current composite operation
+  lastAlive : Tid → Bool := fun _ => false -- value of the last `is_alive` the thread evaluated (what `task.is_alive` hands to `as_completed`)
+  acRaced : Tid → Bool := fun _ => false   -- `as_completed`: `task.state.set_exception(..)` met a future that had completed meanwhile (`InvalidStateError`)
 
 def Env.callSt (e : Env) (i : Nat) : CSt := (e.calls[i]?.map (·.2)).getD .queued
 
@@ -208,6 +256,7 @@ def taskRaises (e : Env) (t : Tid) : Bool :=
   | .rSub _ r _ => r
   | .cAcq _ r => r
   | .sSub _ r _ => r
+  | .ac a => (match a.pc with | .sub _ r => r | _ => false)
   | _ => false
 
 /-- `worker.call(..)` inside its `with self._states_lock:` (courier_utils.py:652–656); the call is remembered as one of
@@ -239,7 +288,7 @@ def startE (e : Env) (t : Tid) : EOp → Env
       let j := k % q.length
       let id := q.getD j 0
       let e1 := { e with queue := q.eraseIdx j }
-      if e.callSt id == .cancelled then e1           -- a cancelled call runs no handler and stays cancelled
+      if (e.callSt id).done then e1                  -- a cancelled call runs no handler and stays cancelled; a future completed by hand (`as_completed`: `set_exception`) keeps its state
       else if fail then setCall e1 id .failed
       else match e.calls[id]? with
         | some (.hb w al, _) => setMic e1 t (.hbAcq id w al e.now)
@@ -305,10 +354,185 @@ def afterAlive (e : Env) (t : Tid) (k : K) (b : Bool) : Env :=
     setMic e t (if m = 0 then .idle else .strAcq m)
   | _ => setMic e t .idle
 
+/-- What the step that returns the verdict `b` of `is_alive` does besides (`afterAlive`): the verdict is remembered for the
+caller; and when the caller is `as_completed` evaluating `task.is_alive` (orchestrate.py:528–537) and the verdict is negative, the
+thread-local code up to the next yield point runs in this very step: `task.state.set_exception(TimeoutError(..))` — the future is
+completed by hand (a later delivery does not change it), or, if it has completed since the `done()` poll, `InvalidStateError`. -/
+def afterAliveAC (e : Env) (t : Tid) (k : K) (b : Bool) : Env :=
+  let e1 := { afterAlive e t k b with lastAlive := upd e.lastAlive t b }
+  match e.ctl t with
+  | .ac a =>
+    match a.pc with
+    | .isAl r _ _ =>
+      if b then e1
+      else if (e.callSt r.call).done then { e1 with acRaced := upd e1.acRaced t true }
+      else { setCall e1 r.call .failed with acRaced := upd e1.acRaced t false }
+    | _ => e1
+  | _ => e1
+
 def lastRes (x : X) (t : Tid) : Option Res := (x.base.T t).results.getLast?
 
 def allDone (e : Env) (ids : List Nat) : Bool := ids.all fun i => (e.callSt i).done
 def anyFailed (e : Env) (ids : List Nat) : Bool := ids.any fun i => e.callSt i == .failed || e.callSt i == .cancelled
+
+/-! #### the controller of `as_completed` -/
+
+def nodupB : List Nat → Bool
+  | [] => true
+  | a :: l => !l.contains a && nodupB l
+
+/-- `workers = list(itertools.chain(preferred, backup_workers))` with `backup_workers = list(set(worker_pool.workers) - preferred)`
+shuffled (orchestrate.py:490–492): the preferred workers in some order, then the other live workers in some order. -/
+def legalOrder (preferred alive ws : List Wid) : Bool :=
+  (ws.take preferred.length).isPerm preferred &&
+    (ws.drop preferred.length).isPerm (alive.eraseDups.filter fun w => !preferred.contains w)
+
+/-- `unused_workers = acquired - running - reserved` iterated in some order, where `reserved` is a `random.sample` of `k` of the
+`candidates` (orchestrate.py:544–553; `free` = `acquired - running`): `ws` is duplicate-free, inside `free`, what it leaves out of
+`free` are candidates, and their number is compatible with a sample of size `k` (the rest of the sample lies outside `free`). -/
+def legalUnused (free cand : List Wid) (k : Nat) (ws : List Wid) : Bool :=
+  let kept := free.filter fun w => !ws.contains w
+  nodupB ws && ws.all (fun w => free.contains w) && kept.all (fun w => cand.contains w) &&
+    decide (kept.length ≤ k) && decide (k ≤ kept.length + (cand.filter fun w => !free.contains w).length)
+
+/-- What a step of the controller does: an update of the controller and — unless the step is the `task.done()` poll — the piece it starts. -/
+structure AAct where
+  piece : Option Op
+  ctl : Ctl
+  reset : Bool := false       -- `tcalls` of the thread is emptied (a new `submit` begins)
+
+/-- every way out of the `try:` — `finally: worker_pool.release_all()` (555–557) -/
+def AC.leave (a : AC) (o : Outc) : AAct := { piece := some (.finalize a.p), ctl := .fin a.p o }
+
+/-- `time.sleep(0.0)` (554, no yield point), then `while not exhausted or tasks or running_tasks:` (486) and `worker_pool.workers` (488) -/
+def AC.top (a : AC) : AAct :=
+  if !a.exhausted || !a.tasks.isEmpty || !a.running.isEmpty then
+    { piece := some (.aliveWorkers a.p false), ctl := .ac { a with pc := .alive1 } }
+  else a.leave .ok
+
+/-- `if exhausted and not tasks:` (543) → `worker_pool.acquired_workers` (545) -/
+def AC.release (a : AC) : AAct :=
+  if a.exhausted && a.tasks.isEmpty then { piece := some (.acquiredWorkers a.p), ctl := .ac { a with pc := .acq } }
+  else a.top
+
+/-- `for task in running_tasks:` (508) at the tasks `todo`: poll `task.done()` of the next one (a yield point of its own: the
+future is shared with the transport), or leave the loop (`running_tasks = still_running`, 540). -/
+def AC.check (st : Nat → CSt) (a : AC) : List ARun → List ARun → AAct
+  | [], still => ({ a with running := still }).release
+  | r :: todo, still => { piece := none, ctl := .ac { a with pc := .polled r (st r.call) todo still } }
+
+/-- `while (tasks or not exhausted) and (worker := worker_pool.next_idle_worker(workers, maybe_acquire=True)):` (493–495) -/
+def AC.submitHead (st : Nat → CSt) (a : AC) : AAct :=
+  if !a.tasks.isEmpty || !a.exhausted then
+    { piece := some (.nextIdle a.p a.ws true), ctl := .ac { a with pc := .next } }
+  else a.check st a.running []
+
+/-- `if not tasks and not exhausted: try: tasks.append(next(task_iterator)) except StopIteration: exhausted = True` (497–502) -/
+def AC.draw (a : AC) : AC :=
+  if a.tasks.isEmpty && !a.exhausted then
+    match a.todo with
+    | [] => { a with exhausted := true }
+    | k :: rest => { a with tasks := [k], todo := rest }
+  else a
+
+/-- `acquired - running` (552) -/
+def AC.free (a : AC) (acquired : List Wid) : List Wid := acquired.filter fun w => !(a.running.map (·.w)).contains w
+
+/-- `candidates := list(preferred - running or acquired - running)` (548) -/
+def AC.cand (a : AC) (acquired : List Wid) : List Wid :=
+  if (a.preferred.filter fun w => !(a.running.map (·.w)).contains w).isEmpty then a.free acquired
+  else a.preferred.filter fun w => !(a.running.map (·.w)).contains w
+
+/-- `num_reserved_workers = min(len(running - preferred), len(candidates))` (550) -/
+def AC.nres (a : AC) (acquired : List Wid) : Nat :=
+  min ((a.running.map (·.w)).eraseDups.filter fun w => !a.preferred.contains w).length (a.cand acquired).length
+
+/-- `worker_pool.release_all(unused_workers)` (553).  The set `unused_workers` and its iteration order are the environment's choice
+(read off the prophecy).  Unrepaired code: the call is always made — with an EMPTY set `release_all` releases every worker of the
+pool (`workers = workers or self._workers`).  Repaired code (`fixed`): the call is made only for a non-empty set. -/
+def AC.relPlan (a : AC) (head : Option Op) (free cand : List Wid) (k : Nat) : Option AAct :=
+  match head with
+  | some (.releaseAll q ws) =>
+    if q = a.p ∧ legalUnused free cand k ws = true ∧ (a.fixed = true → ws ≠ []) then
+      some { piece := some (.releaseAll a.p ws), ctl := .ac { a with pc := .rel } }
+    else if a.fixed = true ∧ legalUnused free cand k [] = true then some a.top else none
+  | _ => if a.fixed = true ∧ legalUnused free cand k [] = true then some a.top else none
+
+/-- The next yield point of `as_completed` from its program point `a.pc`: `head` = the next operation of the thread's script (the
+prophecy: it carries the environment's choices), `last` = the value of the piece that has just ended, `st` = the futures,
+`alive` / `raced` = what the last `task.is_alive` found, `live` = `time.time() - ticker < heartbeat_threshold_secs` inside `submit`,
+`lastCall` = the call `submit` has just made. -/
+def acPlan (a : AC) (head : Option Op) (last : Option Res) (st : Nat → CSt) (alive raced live : Bool) (lastCall : Nat) :
+    Option AAct :=
+  match a.pc with
+  | .alive1 =>
+    match last with
+    | some (.workers []) => some (a.leave .noWorker)      -- `raise TimeoutError('All workers timeout, ..')` (489)
+    | some (.workers _) => some { piece := some (.aliveWorkers a.p false), ctl := .ac { a with pc := .alive2 } }
+    | _ => none
+  | .alive2 =>
+    match last with
+    | some (.workers l) =>
+      if !a.tasks.isEmpty || !a.exhausted then
+        match head with
+        | some (.nextIdle q ws true) =>
+          if q = a.p ∧ legalOrder a.preferred l ws = true then some (({ a with ws := ws }).submitHead st) else none
+        | _ => none
+      else some (a.check st a.running [])
+    | _ => none
+  | .next =>
+    match last with
+    | some (.worker none) => some (a.check st a.running [])
+    | some (.worker (some w)) =>
+      match a.draw.tasks with
+      | [] => some (a.draw.submitHead st)
+      | k :: rest =>      -- `running_tasks.append(worker.submit(tasks.pop()))` (504)
+        some { piece := some (.submitW a.p w 0), reset := true, ctl := .ac { a.draw with tasks := rest, pc := .sub w k } }
+    | _ => none
+  | .sub w k =>
+    match last with
+    | some .unit => some (({ a with running := a.running ++ [ARun.mk k w lastCall], pc := .next }).submitHead st)
+    | some (.code 1) =>      -- `time.sleep(0.1)`, then the deadline of `wait_until_alive` (courier_utils.py:603–611)
+      if live then some { piece := some (.submitW a.p w 1), ctl := .ac a } else some (a.leave .disconnected)
+    | some (.code _) => some { piece := some (.submitW a.p w 2), ctl := .ac a }      -- `while not self.has_capacity: time.sleep(0)`
+    | _ => none
+  | .polled r s todo still =>
+    match s with
+    | .queued => some { piece := some (.isAliveW a.p r.w), ctl := .ac { a with pc := .isAl r todo still } }   -- `elif not task.is_alive:` (528)
+    | .ok =>             -- `preferred.add(task.worker); yield task.result()` (526–527)
+      let a1 := { a with preferred := if a.preferred.contains r.w then a.preferred else a.preferred ++ [r.w],
+                         yielded := a.yielded + 1 }
+      if a.take = some a1.yielded then some (({ a1 with running := still ++ todo }).leave .closed)
+      else some (a1.check st todo still)
+    | .cancelled => some (a.leave .raised)      -- `task.exception()` raises `CancelledError`
+    | .failed =>         -- `preferred.discard(task.worker)`; not a timeout (the transport's failures are application errors)
+      let a1 := { a with preferred := a.preferred.filter fun w => w != r.w }
+      if a.ignore then some (a1.check st todo still) else some (a1.leave .raised)
+  | .isAl r todo still =>
+    if raced then some (a.leave .raised)        -- `InvalidStateError` from `set_exception`
+    else if alive then some (a.check st todo (still ++ [r]))
+    else some (({ a with tasks := r.raises :: a.tasks }).check st todo still)      -- `tasks.append(task.set(_exc=None))` (537)
+  | .acq =>
+    match last with
+    | some (.workers acquired) => a.relPlan head (a.free acquired) (a.cand acquired) (a.nres acquired)
+    | _ => none
+  | .rel => some a.top
+
+/-- Execute a planned step. -/
+def acEnv (t : Tid) (act : AAct) (e : Env) : Env :=
+  setCtl { e with tcalls := if act.reset then upd e.tcalls t [] else e.tcalls } t act.ctl
+
+def acExec (pw : Pid → List Wid) (x : X) (t : Tid) (act : AAct) : Option X :=
+  match act.piece with
+  | some op => startPiece pw x t op (acEnv t act)
+  | none => some ⟨x.base, acEnv t act x.env⟩
+
+/-- One step of a thread inside `as_completed`, between two pieces. -/
+def acstep (pw : Pid → List Wid) (x : X) (t : Tid) (a : AC) : Option X :=
+  match acPlan a (x.base.T t).script.head? (lastRes x t) x.env.callSt (x.env.lastAlive t) (x.env.acRaced t)
+      (decide (x.env.now - x.env.sticker t < x.env.thr)) ((x.env.tcalls t).getLast?.getD 0) with
+  | some act => acExec pw x t act
+  | none => none
 
 /-- One step of a thread that is inside a composite operation, between two pieces. -/
 def cstep (pw : Pid → List Wid) (x : X) (t : Tid) : Ctl → Option X
@@ -365,6 +589,7 @@ def cstep (pw : Pid → List Wid) (x : X) (t : Tid) : Ctl → Option X
       else some ⟨x.base, { setCtl x.env t .idle with outs := upd x.env.outs t (x.env.outs t ++ [.disconnected]) }⟩
     | some (.code _) => startPiece pw x t (.submitW p w 2) id      -- `while not self.has_capacity: time.sleep(0)`
     | _ => none
+  | .ac a => acstep pw x t a
 
 def popProg (e : Env) (t : Tid) : Env := { e with prog := upd e.prog t (e.prog t).tail }
 
@@ -385,7 +610,7 @@ def xstep? (pw : Pid → List Wid) (x : X) (t : Tid) : Option X :=
       | _ => ostep pw x t false fun e => afterScan e t cl.w (scan e.callSt (e.clients cl.w).pend [])
     | .iExit =>
       match x.env.mic t with
-      | .exit b => ostep pw x t b fun e => afterAlive e t k b
+      | .exit b => ostep pw x t b fun e => afterAliveAC e t k b
       | .foldAcq p todo keep =>
         if x.env.rl = none then
           some ⟨x.base, setMic { x.env with rl := some t, reg := Registry.refresh x.env.reg cl.w p.time } t
@@ -410,6 +635,10 @@ def xstep? (pw : Pid → List Wid) (x : X) (t : Tid) : Option X :=
         startPiece pw x t (.acquireAllCall p) fun e => setCtl { popProg e t with tcalls := upd e.tcalls t [] } t (.cAcq p r)
       | .submitNB p w r :: _ =>
         startPiece pw x t (.submitW p w 0) fun e => setCtl { popProg e t with tcalls := upd e.tcalls t [] } t (.sSub p r w)
+      | .asCompleted p tasks ign take fixed :: _ =>      -- the generator's first `next()`: up to the first `worker_pool.workers` (488)
+        startPiece pw x t (.aliveWorkers p false) fun e =>
+          setCtl { popProg e t with tcalls := upd e.tcalls t [] } t
+            (.ac { p := p, ignore := ign, fixed := fixed, take := take, todo := tasks, pc := .alive1 })
       | .prim :: _ =>
         match (x.base.T t).script with
         | _ :: _ => ostep pw x t false fun e => popProg e t
